@@ -1809,8 +1809,11 @@ BTree_rangeSearch(BTree *self, PyObject *args, PyObject *kw, char type)
     /* The buckets differ, or they're the same and the offsets show a non-
     * empty range.
     */
-    if (min != Py_None && max != Py_None && /* both args user-supplied */
-        lowbucket != highbucket)   /* and different buckets */
+    /* (An omitted endpoint can cross the other one too, when it is
+    * exclusive:  the low position is then the second key, the high position
+    * the last but one.)
+    */
+    if (lowbucket != highbucket)   /* different buckets */
     {
         KEY_TYPE first;
         KEY_TYPE last;
